@@ -99,14 +99,18 @@ impl SchedulerCore {
         let reschedule = {
             let mut core = queue.core.lock().expect("JobQueue core lock");
 
-            // Signal any waiting condition variables
+            // Signal any threads blocked in sync() (the flag is set with the mutex held so a thread that has not started waiting yet won't miss it)
             core.wake_blocked.iter_mut()
-                .for_each(|cond_var| {
-                    if let Some(cond_var) = cond_var.upgrade() {
-                        cond_var.notify_one();
+                .for_each(|blocked| {
+                    if let Some(blocked) = blocked.upgrade() {
+                        {
+                            let _ready = blocked.ready.lock().expect("Background job ready lock");
+                            blocked.rescheduled.store(true, atomic::Ordering::SeqCst);
+                        }
+                        blocked.wakeup.notify_one();
                     }
                 });
-            core.wake_blocked.retain(|cond_var| cond_var.strong_count() > 0);
+            core.wake_blocked.retain(|blocked| blocked.strong_count() > 0);
 
             match core.state {
                 QueueState::Idle => {
